@@ -278,9 +278,12 @@ def codec_parse(fmt, text, ff=False):
 
 
 def attempt(fn, *a, **kw):
+    import contextlib
     from pypyr.errors import get_error_name
     try:
-        return ['ok', fn(*a, **kw)]
+        # (ruamel's emitter writes the offending text to stdout when a stream cannot encode it)
+        with contextlib.redirect_stdout(io.StringIO()):
+            return ['ok', fn(*a, **kw)]
     except RecursionError:
         return ['err', 'RecursionError', '']
     except Exception as e:
@@ -427,9 +430,29 @@ def step_inputs(case):
     x = [['in', case['in']]]
     if case.get('out') is not None:
         x.append(['out', case['out']])
-    if case.get('enc') and case['fmt'] != 'toml':
-        x.append(['encoding', case['enc']])
+    if case['fmt'] != 'toml':
+        for k, name in (('enc', 'encoding'), ('enc_in', 'encodingIn'), ('enc_out', 'encodingOut')):
+            if case.get(k):
+                x.append([name, case[k]])
     return [[F['x'], {'d': x}]]
+
+
+def ff_encodings(case):
+    """(in, out) encodings a fileformat case asks for, by the documented defaults:
+    encodingIn / encodingOut fall back to encoding, which falls back to the platform
+    default (utf-8 here)."""
+    if case['fmt'] == 'toml':
+        return 'utf-8', 'utf-8'
+    d = case.get('enc') or 'utf-8'
+    return case.get('enc_in') or d, case.get('enc_out') or d
+
+
+def can_encode(text, enc):
+    try:
+        text.encode(enc)
+        return True
+    except UnicodeEncodeError:
+        return False
 
 
 def run_wf(case):
@@ -465,6 +488,7 @@ def run_wf(case):
             pr = attempt(codec_print, fmt, fp_obj)
             oracle['print'] = ['ok', pr[1].replace(sb.tmp, ROOT)] if pr[0] == 'ok' else pr
             if pr[0] == 'ok':
+                obs['encodable'] = can_encode(pr[1], enc or 'utf-8')
                 pa = attempt(codec_parse, fmt, pr[1])
                 oracle['parse'] = ['ok', canon(pa[1], sb.unsub)] if pa[0] == 'ok' else pa
                 obs['rt_ok'] = pa[0] == 'ok' and same(oracle['parse'][1], obs['fp'][1])
@@ -539,7 +563,7 @@ def run_ff(case):
     import importlib
     F = FMT[case['fmt']]
     fmt = case['fmt']
-    enc = case.get('enc') if fmt != 'toml' else None
+    enc_in, enc_out = ff_encodings(case)
     sb = Sandbox()
     try:
         ctx = build_context(case, sb, step_inputs(case))
@@ -550,8 +574,12 @@ def run_ff(case):
             text = make_text(fmt, to_py(case['doc']), case.get('style', {}))
         p_in = sb.real(case['in_real'])
         os.makedirs(os.path.dirname(p_in), exist_ok=True)
+        if not can_encode(text, enc_in):
+            # the generated document cannot be stored in the requested input encoding, so
+            # there is no such input file: nothing to run
+            return {'skip': 'input not encodable in ' + enc_in}
         if not case.get('no_infile'):
-            with open(p_in, 'w', encoding=enc or 'utf-8', newline='') as f:
+            with open(p_in, 'w', encoding=enc_in, newline='') as f:
                 f.write(text)
         obs['in_text'] = text
         # oracles (direct third-party calls, the loaders the representers use)
@@ -579,15 +607,39 @@ def run_ff(case):
         obs['oracle'] = oracle
         r = attempt(importlib.import_module(F['xm']).run_step, ctx)
         obs['res'] = ['ok'] if r[0] == 'ok' else r
-        files = dict((p, t) for p, t in sb.files(enc))
+        target = case.get('out_real') or case['in_real']
         order = [case['in_real']]
         if case.get('out_real') and case['out_real'] != case['in_real']:
             order.append(case['out_real'])
-        obs['files'] = [[p, files.pop(p)] for p in order if p in files]
-        obs['stray_files'] = sorted(files)          # temp files left behind (C15's concern)
-        target = case.get('out_real') or case['in_real']
+        # the bytes on disk, decoded with the encoding the step was asked to use for that file
+        raw = {}
+        for d, _, names in sorted(os.walk(sb.tmp)):
+            for n in sorted(names):
+                with open(os.path.join(d, n), 'rb') as f:
+                    raw[os.path.join(d, n).replace(sb.tmp, ROOT)] = f.read()
+        obs['files'] = []
+        obs['decode'] = 'ok'
+        for p in order:
+            if p not in raw:
+                continue
+            b = raw.pop(p)
+            e = enc_out if (p == target and r[0] == 'ok') else enc_in
+            try:
+                t = b.decode(e)
+            except UnicodeError as ex:
+                if p == target and r[0] == 'ok':
+                    obs['decode'] = f'{p}: the bytes written do not decode as {e}: {ex}'[:300]
+                t = '<undecodable as ' + e + '> ' + b.decode('latin-1')
+            if p == target and r[0] == 'ok' and e == 'utf-8-sig' and not b.startswith(b'\xef\xbb\xbf'):
+                obs['decode'] = f'{p}: encodingOut utf-8-sig but the file has no BOM'
+            if p == target and r[0] == 'ok' and e == 'utf-16' and b[:2] not in (b'\xff\xfe', b'\xfe\xff'):
+                obs['decode'] = f'{p}: encodingOut utf-16 but the file has no BOM'
+            obs['files'].append([p, t.replace(sb.tmp, ROOT)])
+        obs['stray_files'] = sorted(raw)            # temp files left behind (C15's concern)
         out_text = dict(obs['files']).get(target)
         obs['out_text'] = out_text
+        if 'print' in oracle and oracle['print'][0] == 'ok':
+            obs['out_encodable'] = can_encode(oracle['print'][1], enc_out)
         if r[0] == 'ok' and out_text is not None:
             po = attempt(codec_parse, fmt, out_text, True)
             obs['out_parsed'] = ['ok', canon(po[1])] if po[0] == 'ok' else po
